@@ -5,36 +5,38 @@
 EXTENDS Iter
 CONSTANTS Shape, Width,   \* which expressions are explored: "d1" | "d2" | "d3" over the "small" | "wide" slice set
           BaseSet, WrapsOf(_, _)   \* bound in the cfg to SeqBaseT / SeqWrapsT (C14) or PairBaseT / PairWrapsT (C15, PairIterMC)
-VARIABLES expr, st, out, has, phase
-vars == <<expr, st, out, has, phase>>
+VARIABLES expr, st, out, has, phase,
+          want      \* Sem(expr), evaluated once when the expression is complete
+vars == <<expr, st, out, has, phase, want>>
 
 SeqBaseT == SeqBase(Shape, Width)
 SeqWrapsT(tag, e) == SeqWraps(tag, e, Shape, Width)
 
+Running == phase \in {"seq", "pair"}
 Init == /\ \E b \in BaseSet : phase = b[1] /\ expr = b[2]
-        /\ st = Nil /\ out = <<>> /\ has = FALSE
-Wrap == /\ phase \notin {"seq", "pair"}
+        /\ st = Nil /\ out = <<>> /\ has = FALSE /\ want = <<>>
+Wrap == /\ ~Running
         /\ \E w \in WrapsOf(phase, expr) : phase' = w[1] /\ expr' = w[2]
-        /\ st' = Construct(expr')[1]
         /\ out' = <<>>
-        /\ has' = (st' # Nil)
-Step == /\ phase \in {"seq", "pair"} /\ has
+        /\ IF phase' \in {"seq", "pair"}
+           THEN st' = Construct(expr')[1] /\ has' = (st' # Nil) /\ want' = Sem(expr')
+           ELSE UNCHANGED <<st, has, want>>
+Step == /\ Running /\ has
         /\ LET n == Next(st) IN
            /\ out' = Append(out, Value(st)[1])
            /\ st' = n[2]
            /\ has' = n[1]
-        /\ UNCHANGED <<expr, phase>>
+        /\ UNCHANGED <<expr, phase, want>>
 Next1 == Wrap \/ Step
 Spec == Init /\ [][Next1]_vars
 
-Running == phase \in {"seq", "pair"}
-ListSemantics == Running /\ ~has => out = Sem(expr)
-PrefixAlways == Running => Len(out) <= Len(Sem(expr)) /\ SubSeq(Sem(expr), 1, Len(out)) = out
-NilIffEmpty == Running /\ Len(out) = 0 => (has <=> Sem(expr) # <<>>)      \* an empty result is the nil iterator
+ListSemantics == Running /\ ~has => out = want
+PrefixAlways == Running => Len(out) <= Len(want) /\ SubSeq(want, 1, Len(out)) = out
+NilIffEmpty == Running /\ Len(out) = 0 => (has <=> want # <<>>)      \* an empty result is the nil iterator
 SourcesUntouched == SliceViewsOK(st)
 \* evaluated once per expression (in its final state): ForEach as coded = the list cut after the failing callback;
 \* the one-value form of the loop (used by the generator and the trace spec) is the same drain
 ForEachStops == Running /\ ~has =>
-                  /\ \A k \in 0..Len(Sem(expr)) : ForEachI(expr, k) = ForEachL(Sem(expr), k)
-                  /\ Values(Run(expr).steps) = Sem(expr)
+                  /\ \A k \in 0..Len(want) : ForEachI(expr, k) = ForEachL(want, k)
+                  /\ Values(Run(expr).steps) = want
 ====
